@@ -64,6 +64,51 @@ def mc_softfork(rep: Report, bound: int):
                                                                  'replay_mismatches': bad}
 
 
+def same_bytes_clause(rep: Report):
+    """compile / decompile: NOPn on the old VM, name and aliases on the upgraded VM, identical bytes.
+    Expected bytes come from Asm.tla (AsmMC family operands: one-byte-operand nodes at NOP codes)."""
+    from .. import asmcheck
+    res = tlc.run_tlc('AsmMC', asmcheck.CFG % 'operands', workers=4, timeout=1200, heap='4g')
+    rep.add_tlc(res, 'mc:AsmMC/operands (NOP encodings)')
+    ts = asmcheck._impl()
+    recs = [r for r in res.records if isinstance(r, dict) and r.get('k') == 'asm' and r['toks'][0].startswith('NOP')]
+    seen = set()
+    for r in recs:
+        code, count = r['bytes']
+        if (code, count) in seen:
+            continue
+        seen.add((code, count))
+        rep.case(f'samebytes/{code}/{count}')
+        expect = bytes(r['bytes'])
+        problems = []
+        signed = count - 256 if count >= 128 else count
+        for src in (f'NOP{code} d{signed}', f'nop{code} x{count:02x}'):
+            st, val = asmcheck.with_timeout(lambda: ts.compile_script(src), 5)
+            if st != 'ok' or val != expect:
+                problems.append(f'old VM: {src!r} -> {val.hex() if st == "ok" else val}, expected {expect.hex()}')
+        st, lines = asmcheck.with_timeout(lambda: ts.decompile_script(expect), 5)
+        if st != 'ok' or list(lines) != list(r['listing']):
+            problems.append(f'old VM: decompile {expect.hex()} -> {lines}, expected {r["listing"]}')
+        with softfork.installed({code: 'never'}, {code: ['FKA', 'OP_FKB']}):
+            for src in (f'OP_FORK{code} d{count}', f'op_fork{code} x{count:02x}', f'FKA d{count}', f'fka d{count}', f'OP_FKB d{count}'):
+                st, val = asmcheck.with_timeout(lambda: ts.compile_script(src), 5)
+                if st != 'ok' or val != expect:
+                    problems.append(f'upgraded VM: {src!r} -> {val.hex() if st == "ok" else val}, expected {expect.hex()}')
+            st, lines = asmcheck.with_timeout(lambda: ts.decompile_script(expect), 5)
+            if st != 'ok' or list(lines) != [f'OP_FORK{code} d{count}']:
+                problems.append(f'upgraded VM: decompile {expect.hex()} -> {lines}')
+            else:
+                st, back = asmcheck.with_timeout(lambda: ts.compile_script('\n'.join(lines)), 5)
+                if st != 'ok' or back != expect:
+                    problems.append(f'upgraded VM: compile(decompile({expect.hex()})) -> {back}')
+        if problems:
+            rep.violation(f'soft-fork op at code {code}, count byte {count}: ' + '; '.join(problems)[:600],
+                          {'kind': 'samebytes', 'code': code, 'count': count})
+        else:
+            rep.traces += 1
+    rep.extra['same_bytes_cases'] = len(seen)
+
+
 def main(tier: str, seed: int) -> int:
     rep = Report('C20', tier, seed)
     rep.rule = ('MC: TapeVMMC family nop - every unassigned code 92..255 x every count byte 0..255 x stack depths 0..3 with '
@@ -72,7 +117,10 @@ def main(tier: str, seed: int) -> int:
                 '<= N atoms (fork op bare, inside IF / DEF+CALL / EVAL / LOOP / TRY, with counts 0,1,2,128,255) x 5 fork '
                 'predicates x 3 codes x 5 witnesses, invariants Simulation, ForkImpliesOld, DivergeOnlyByRaise; every '
                 'behaviour replayed in the real VM with and without tools.add_soft_fork. traces: generated programs using '
-                'unassigned codes with forks installed at random free codes, validated by TLC (TapeVM.OpFork).')
+                'unassigned codes with forks installed at random free codes, validated by TLC (TapeVM.OpFork). compile / decompile: '
+                'for NOP codes 92, 200, 255 x count bytes 0,1,127,128,255 the bytes Asm.tla assigns must be produced by NOPn '
+                '(d and x spellings) on the old VM and by the op name, lower case, bare and both aliases on the upgraded VM, and '
+                'decompile / recompile must round-trip on both.')
     rep.assumptions = ['the forked op is of the documented shape: reads the count byte, removes count items, may raise']
     quick = tier == 'quick'
     if quick:
@@ -80,6 +128,7 @@ def main(tier: str, seed: int) -> int:
     else:
         vmcheck.mc_family(rep, 'nop', 0)
     mc_softfork(rep, 2 if quick else 3)
+    same_bytes_clause(rep)
     base = seed * 1_000_003
     n = 1500 if quick else 30000
     for off in range(0, n, 10000):
